@@ -418,6 +418,12 @@ bool ManifestParser::ParseEdge(string* err) {
     CanonicalizePath(&dyndep, &slash_bits);
     edge->dyndep_ = state_->GetNode(dyndep, slash_bits);
     edge->dyndep_->set_dyndep_pending(true);
+    // The dyndep file may add bindings (restat) to this edge when it is
+    // loaded.  When the "dyndep" binding comes from the rule the edge has no
+    // scope of its own yet: do not let those bindings land in the scope it
+    // shares with every other build statement of the file.
+    if (edge->env_ == env_)
+      edge->env_ = new BindingEnv(env_);
     vector<Node*>::iterator dgi =
       std::find(edge->inputs_.begin(), edge->inputs_.end(), edge->dyndep_);
     if (dgi == edge->inputs_.end()) {
